@@ -208,6 +208,12 @@ def cases(tier):
             if not thorough and length == 4 and max(sizes) > 3:
                 continue
             out.append({"sub": "lazy", "sizes": list(sizes)})
+    # sizes beyond every small-integer / 8-bit / 16-bit threshold (complete), and sizes of the largest grids the library
+    # accepts (1e8 points per axis: the first tuples only, against the mixed-radix digits)
+    for sizes in ([257], [300, 3], [3, 300], [2, 257, 2], [70000], [1, 65537], [256, 257]) + (([65537, 3], [2, 3, 40000]) if thorough else ()):
+        out.append({"sub": "lazy", "sizes": list(sizes)})
+    for sizes in ([10 ** 8, 3], [3, 10 ** 8], [10 ** 8, 10 ** 8, 10 ** 8], [2 ** 32 + 1, 2 ** 32, 5], [7, 2 ** 63, 3, 2]):
+        out.append({"sub": "lazy", "sizes": list(sizes), "prefix": 20000 if thorough else 3000})
     # states manager
     # 1-d: the origin may be the first / last point of the axis (L = 0 / R = 0: one-sided grid)
     M1 = 8 if thorough else 5
@@ -349,6 +355,18 @@ def cases(tier):
         depth = 3 if (thorough and dim < 3) else 2
         for first in REUSE_OPS:
             out.append({"sub": "reuse", "shape": shape, "boundary": bnd, "first": first, "depth": depth})
+    # whole hyperbolas n = (x+1)(y+1) of the hyperbolic pairing chosen by the factor structure of n relative to every
+    # table / threshold T an implementation could hard-code: products of the primes just below / above T, and highly
+    # composite n
+    cap = 2 ** 40 if thorough else 2 ** 34
+    for T in sorted(set([16, 100, 128, 256, 541, 1000, 1024, 4096, 7919, 10 ** 4, 2 ** 15, 2 ** 16, 10 ** 5]
+                        + ([32, 64, 512, 2048, 8192, 2 ** 14, 2 ** 17, 2 ** 18, 10 ** 6, 2 ** 20] if thorough else []))):
+        out.append({"sub": "hyperbola", "T": T, "cap": cap})
+    out.append({"sub": "hyperbola", "T": None, "cap": cap})
+    # signed states with LARGE coordinates (2^15 .. 2^64: Python integers are unbounded), every pairing class, d = 2, 3, 4
+    for name, dims in (("szudzik", (2, 3, 4)), ("rosenbergstrong", (2, 3, 4)), ("cantor", (2,)), ("pepiskalmar", (2, 3)), ("hyperbolic", (2, 3))):
+        for dim in dims:
+            out.append({"sub": "zd-large", "pairing": name, "dim": dim})
     return out
 
 
@@ -980,6 +998,28 @@ def _sub_lazy(sh, case):
     from rpylib.tools.generic import lazy_indices_product
 
     sizes = case["sizes"]
+    if case.get("prefix"):
+        # sizes too large to enumerate (grids with up to 1e8 points per axis): the first `prefix` tuples against the
+        # mixed-radix digits of 0, 1, 2, ... computed here in plain Python integers
+        K = case["prefix"]
+        arg = list(sizes)
+        got = [tuple(int(v) for v in t) for t in itertools.islice(lazy_indices_product(arg), K)]
+        ref = []
+        for n in range(K):
+            digits = []
+            for s in reversed(sizes):
+                n, r = divmod(n, s)
+                digits.append(r)
+            ref.append(tuple(reversed(digits)))
+        sh.count("evaluations", K)
+        if got != ref or arg != list(sizes):
+            j = next((j for j, (a, b) in enumerate(zip(got, ref)) if a != b), min(len(got), len(ref)))
+            sh.violation("C14:lazy-product:prefix-differs-from-mixed-radix-digits:large-sizes",
+                         f"lazy_indices_product({sizes}): tuple number {j} is {got[j] if j < len(got) else None}, expected {ref[j] if j < len(ref) else None}"
+                         f"; argument afterwards {arg}", None)
+        sh.outcome((tuple(sizes), tuple(got[-1:])))
+        sh.nontriv()
+        return
     got = [tuple(int(v) for v in t) for t in lazy_indices_product(list(sizes))]
     ref = list(itertools.product(*[range(s) for s in sizes]))
     sh.count("evaluations", len(ref))
@@ -1584,3 +1624,419 @@ def _sub_reuse(sh, case):
     sh.cls(f"reuse:d{dim}:boundary-{bnd0}:first-{case['first']}")
     if shape0 == [(1, 2), (1, 1)] and case["first"] == "refine":
         sh.sample({"sub": "reuse", "shape": shape0, "words": [list(w) for w in words]})
+
+
+# ----------------------------------------------------------------------------------------------------------------------
+# whole hyperbolas of the hyperbolic pairing, chosen by the factor structure of n = (x+1)(y+1)
+
+def _is_prime(n):
+    if n < 2:
+        return False
+    if n % 2 == 0:
+        return n == 2
+    k = 3
+    while k * k <= n:
+        if n % k == 0:
+            return False
+        k += 2
+    return True
+
+
+def _next_prime(n):
+    """smallest prime > n"""
+    n += 1
+    while not _is_prime(n):
+        n += 1
+    return n
+
+
+def _prev_prime(n):
+    """largest prime <= n"""
+    while not _is_prime(n):
+        n -= 1
+    return n
+
+
+def _divisor_summatory(n):
+    """D(n) = sum_{k<=n} d(k), plain Python integers (Dirichlet hyperbola method)."""
+    if n <= 0:
+        return 0
+    r = math.isqrt(n)
+    return 2 * sum(n // k for k in range(1, r + 1)) - r * r
+
+
+def _divisors(n):
+    small = [a for a in range(1, math.isqrt(n) + 1) if n % a == 0]
+    return sorted(set(small + [n // a for a in small]))
+
+
+_HIGHLY_COMPOSITE = [720, 5040, 55440, 720720, 1441440, 4324320, 21621600, 367567200, 6983776800,
+                     3628800, 479001600, 30030, 9699690, 223092870, 6469693230] + [2 ** k for k in (8, 10, 16, 20, 30, 32)] + [3 ** 20, 6 ** 12]
+
+
+def _hyperbola_ns(case):
+    """[(n, structure)] of one case: either the products of the primes around a threshold T, or the highly composite n."""
+    cap = case["cap"]
+    if case.get("T") is None:
+        return [(n, "highly-composite") for n in _HIGHLY_COMPOSITE if n <= cap]
+    T = case["T"]
+    p = _next_prime(T)
+    q = _next_prime(p)
+    r = _next_prime(q)
+    l = _prev_prime(T)
+    ll = _prev_prime(l - 1)
+    out = [(p, "p"), (l, "l"), (l * l, "l^2"), (ll * l, "k*l"), (l * p, "l*p"), (p * q, "p*q"), (p * p, "p^2"), (q * q, "q^2"), (p * r, "p*r"),
+           (2 * p, "2*p"), (2 * p * q, "2*p*q"), (6 * p * p, "6*p^2"), (3 * p * q, "3*p*q"), (l * p * q, "l*p*q"), (p * p * q, "p^2*q"),
+           (p * q * q, "p*q^2"), (p * q * r, "p*q*r"), (p ** 3, "p^3"), (p * p * q * q, "p^2*q^2"), (T * T, "T^2"), (T * p, "T*p")]
+    if T <= 4096:
+        for c, nm in ((p * p, "p^2"), (p * q, "p*q"), (T * T, "T^2")):
+            out += [(c + d, f"next-to-{nm}") for d in (-2, -1, 1, 2)]
+    seen, res = set(), []
+    for n, s in out:
+        if n not in seen and 2 <= n <= cap:
+            seen.add(n)
+            res.append((n, s))
+    return res
+
+
+def _sub_hyperbola(sh, case):
+    """For every n of the case: the lattice points (a-1, n/a-1), a | n, get exactly the indices [D(n-1), D(n)) (D: own divisor
+    summatory function), every index of the block projects back onto its point (all of them for n <= 2^24 or blocks of at
+    most 64 points, the first / last 16 and 16 evenly spaced ones otherwise), the recursive 3-d pairing agrees on
+    (projection2d(a-1), n/a-1), and the signed extension PairingToZd (zero omitted or kept) round-trips on the states
+    folded onto those points."""
+    from rpylib.distribution.pairing import PairingToZd, projection_to_z
+
+    H = _pairings()["hyperbolic"]
+    T = case.get("T")
+    tcls = "highly-composite" if T is None else f"primes-around-{T}"
+    zds = {omit: PairingToZd(_pairings()["hyperbolic"], dimension=2, omit_zero=omit) for omit in (True, False)}
+    reported = set()
+
+    def bad(failure, structure, what, detail=None):
+        key = f"C14:hyperbola:hyperbolic:{failure}:{structure}:{tcls}"
+        if key not in reported:
+            reported.add(key)
+            sh.violation(key, what, detail)
+
+    nblocks = 0
+    for n, structure in _hyperbola_ns(case):
+        divs = _divisors(n)
+        lo, hi = _divisor_summatory(n - 1), _divisor_summatory(n)
+        if hi - lo != len(divs):
+            raise AssertionError(f"reference inconsistent at n = {n}")
+        nblocks += 1
+        pts = [(a - 1, n // a - 1) for a in divs]
+        idx = []
+        for x, y in pts:
+            sh.count("evaluations")
+            z = H.pairing2d(x, y)
+            if not isinstance(z, (int, np.integer)) or isinstance(z, bool):
+                bad("index-not-an-integer", structure, f"pairing2d({x},{y}) = {z!r} on the hyperbola n = {n}")
+            idx.append(int(z))
+        if sorted(idx) != list(range(lo, hi)):
+            dup = sorted({z for z in idx if idx.count(z) > 1})[:3] if len(idx) <= 4096 else []
+            bad("points-do-not-get-the-index-block-exactly-once", structure,
+                f"hyperbola n = {n} ({structure}, {len(divs)} divisors): the points get the indices {sorted(idx)[:8]}.. instead of "
+                f"[{lo}, {hi}); shared indices {dup}", {"n": n, "points": pts[:8], "indices": idx[:8], "block": [lo, hi]})
+        k = len(pts)
+        if n <= 2 ** 24 or k <= 64:
+            sel = list(range(k))
+        else:
+            sel = sorted(set(list(range(16)) + list(range(k - 16, k)) + [j * k // 16 for j in range(16)]))
+            sh.count("hyperbola-blocks-projected-on-a-stated-subset")
+        by_index = {}
+        for (x, y), z in zip(pts, idx):
+            by_index.setdefault(z, (x, y))
+        for j in sel:
+            z = lo + j
+            sh.count("evaluations")
+            try:
+                back = tuple(int(v) for v in H.projection2d(z))
+            except Exception as e:  # noqa
+                back = repr(e)
+            if isinstance(back, str) or len(back) != 2 or (back[0] + 1) * (back[1] + 1) != n:
+                bad("projection-leaves-the-hyperbola", structure, f"projection2d({z}) = {back}, not on the hyperbola n = {n} of the block [{lo}, {hi})",
+                    {"n": n, "z": z})
+                continue
+            if z in by_index and by_index[z] != back:
+                bad("projection-of-pair-differs", structure, f"n = {n}: pairing2d{by_index[z]} = {z} but projection2d({z}) = {back}", {"n": n, "z": z})
+            z2 = int(H.pairing2d(*back))
+            if z2 != z:
+                bad("pair-of-projection-differs", structure, f"n = {n}: projection2d({z}) = {back}, pairing2d back = {z2}", {"n": n, "z": z})
+        # the points themselves (the state-side round trip), the 3-d recursion and the signed extension
+        for j in sel:
+            (x, y), z = pts[j], idx[j]
+            sh.count("evaluations")
+            try:
+                back = tuple(int(v) for v in H.projection2d(z))
+            except Exception as e:  # noqa
+                back = repr(e)
+            if back != (x, y):
+                bad("projection-of-pair-differs", structure, f"n = {n}: projection2d(pairing2d({x},{y})) = projection2d({z}) = {back}", {"n": n, "z": z})
+            s = (int(projection_to_z(x)), int(projection_to_z(y)))
+            for omit, P in zds.items():
+                if omit and not any(s):
+                    continue
+                sh.count("evaluations")
+                try:
+                    i = int(P.pair(s))
+                    t = tuple(int(v) for v in P.project(i))
+                    i2 = int(P.pair(tuple(int(v) for v in P.project(lo + j - (1 if omit else 0)))))
+                except Exception as e:  # noqa
+                    bad("signed-extension-raises", structure, f"n = {n}: PairingToZd(omit_zero={omit}) on the state {s}: {e!r}")
+                    continue
+                if t != s:
+                    bad("signed-project-of-pair-differs", structure, f"n = {n}: PairingToZd(omit_zero={omit}).project(pair({s})) = project({i}) = {t}",
+                        {"n": n, "state": s})
+                if i2 != lo + j - (1 if omit else 0):
+                    bad("signed-pair-of-project-differs", structure,
+                        f"n = {n}: PairingToZd(omit_zero={omit}).pair(project({lo + j - (1 if omit else 0)})) = {i2}", {"n": n})
+                if not lo <= i + (1 if omit else 0) < hi:
+                    bad("signed-index-outside-the-block", structure, f"n = {n}: pair({s}) = {i}, block [{lo}, {hi}) (omit_zero={omit})", {"n": n})
+            if x <= 2 ** 26:
+                sh.count("evaluations")
+                try:
+                    t3 = tuple(int(v) for v in H.projection2d(x)) + (y,)
+                    z3 = int(H.pairing(t3))
+                    b3 = tuple(int(v) for v in H.projection(z, 3))
+                except Exception as e:  # noqa
+                    bad("3d-recursion-raises", structure, f"n = {n}: 3-d pairing over the point ({x},{y}): {e!r}")
+                    continue
+                if z3 != z or b3 != t3:
+                    bad("3d-recursion-differs", structure, f"n = {n}: pairing({t3}) = {z3}, expected {z}; projection({z},3) = {b3}", {"n": n})
+        sh.cls(f"hyperbola:{structure}")
+    sh.outcome((tcls, nblocks))
+    sh.nontriv()
+    if T == 256:
+        sh.sample({"sub": "hyperbola", "T": T, "hyperbolas": _hyperbola_ns(case)})
+
+
+# ----------------------------------------------------------------------------------------------------------------------
+# PairingToZd on states with large coordinates: closed forms in plain Python integers
+
+def _fold(v):
+    return 2 * v - 1 if v > 0 else -2 * v
+
+
+def _ref_rosenbergstrong(x):
+    z = x[0]
+    for d in range(2, len(x) + 1):
+        m = max(x[:d])
+        z = z + m ** d + (m - x[d - 1]) * ((m + 1) ** (d - 1) - m ** (d - 1))
+    return z
+
+
+def _ref_nested(f2):
+    def ref(x):
+        z = x[0]
+        for y in x[1:]:
+            z = f2(z, y)
+        return z
+    return ref
+
+
+_CLOSED_FORMS = {
+    "rosenbergstrong": _ref_rosenbergstrong,
+    "szudzik": _ref_nested(lambda a, b: a * a + a + b if a >= b else a + b * b),
+    "cantor": _ref_nested(lambda a, b: ((a + b) ** 2 + 3 * a + b) // 2),
+    "pepiskalmar": _ref_nested(lambda a, b: 2 ** b * (2 * a + 1) - 1),
+}
+
+_LARGE_MAGNITUDES = [("2^15", 2 ** 15), ("2^16", 2 ** 16), ("2^20", 2 ** 20), ("2^21", 2 ** 21), ("2^31", 2 ** 31), ("2^32", 2 ** 32),
+                     ("1e8", 10 ** 8), ("2^62", 2 ** 62), ("2^63", 2 ** 63), ("2^64", 2 ** 64)]
+_SMALL_FILL = (5, -2, 1, -3)
+
+
+def _large_states(name, dim, thorough):
+    """[(magnitude label, state)]: one large coordinate on each axis (the others small), two large ones, all large; both
+    signs; the large value M-1, M, M+1.  Pepis-Kalmar (index 2^y (2x+1)): only the first axis is large; hyperbolic: the
+    hyperbola must stay affordable (filtered by the caller)."""
+    out = []
+    for label, M in _LARGE_MAGNITUDES:
+        for big in (M - 1, M, M + 1):
+            for sgn in (1, -1):
+                b = sgn * big
+                pats = []
+                for k in range(dim):
+                    pats.append(tuple(b if j == k else _SMALL_FILL[j] for j in range(dim)))
+                if name != "pepiskalmar":
+                    pats.append(tuple(b if j % 2 == 0 else -b + (1 if j == 1 else 0) for j in range(dim)))  # all large
+                    pats.append(tuple(b for _ in range(dim)))  # exact ties
+                    if dim >= 3:
+                        pats.append((b,) + tuple(_SMALL_FILL[j] for j in range(1, dim - 1)) + (-b,))
+                        pats.append((0,) * (dim - 1) + (b,))
+                        pats.append((b,) + (0,) * (dim - 1))
+                else:
+                    pats = pats[:1] + [(b,) + (0,) * (dim - 1), (b,) + (7,) * (dim - 1)]
+                for s in pats:
+                    out.append((label, s))
+    seen, res = set(), []
+    for label, s in out:
+        if s not in seen:
+            seen.add(s)
+            res.append((label, s))
+    return res
+
+
+def _sub_zd_large(sh, case):
+    """PairingToZd.pair / project at states with coordinates at and beyond 2^15 .. 2^64 (Python integers are unbounded: the
+    unchanged tree accepts them), every argument form, judged by the closed form of the pairing evaluated here in plain
+    Python integers (hyperbolic: membership of the index in the block of its hyperbola), by both round trips and by the
+    type of the answer.  numpy forms only where 8 * (index + 1) fits the dtype (fixed-width arithmetic would overflow
+    in the unchanged tree as well: outside the alphabet, counted)."""
+    from rpylib.distribution.pairing import PairingToZd
+
+    name, dim, thorough = case["pairing"], case["dim"], case.get("thorough", False)
+    ref = _CLOSED_FORMS.get(name)
+    reported = set()
+
+    def bad(failure, label, what, detail=None):
+        key = f"C14:zd-large:{name}:d{dim}:{failure}:coordinates-near-{label}"
+        if key not in reported:
+            reported.add(key)
+            sh.violation(key, what, detail)
+
+    def is_int(v):
+        return isinstance(v, (int, np.integer)) and not isinstance(v, bool)
+
+    nstates = 0
+    for omit in (True, False):
+        P = PairingToZd(_pairings()[name], dimension=dim, omit_zero=omit)
+        om = 1 if omit else 0
+        for label, s in _large_states(name, dim, thorough):
+            f = tuple(_fold(v) for v in s)
+            if name == "hyperbolic":
+                # affordable hyperbolas only: n = (x+1)(y+1) <= 2^34 at every nesting level
+                z, ok, blocks = f[0], True, []
+                for y in f[1:]:
+                    n = (z + 1) * (y + 1)
+                    if n > 2 ** 34:
+                        ok = False
+                        break
+                    blocks.append(n)
+                    z = _divisor_summatory(n)  # upper end of the block: bounds the next level
+                if not ok:
+                    sh.count("zd-large:hyperbola-too-large-skipped")
+                    continue
+                expected = None
+            else:
+                expected = ref(f) - om
+            nstates += 1
+            sh.count("evaluations")
+            try:
+                i = P.pair(s)
+            except Exception as e:  # noqa  (tuples of Python integers: the usual form, never rejected by the unchanged tree)
+                bad("pair-raises", label, f"pair({s}), omit_zero={omit}: {e!r}")
+                continue
+            if not is_int(i):
+                bad("index-not-an-integer", label, f"pair({s}) = {i!r} of type {type(i).__name__}")
+                continue
+            i = int(i)
+            if expected is not None and i != expected:
+                bad("pair-differs-from-the-closed-form", label, f"pair({s}), omit_zero={omit} = {i}, the closed form in Python integers gives {expected}",
+                    {"state": s, "omit": omit, "got": i, "expected": expected})
+            if expected is None:
+                n = (f[0] + 1) * (f[1] + 1) if dim == 2 else None
+                if n is not None and not _divisor_summatory(n - 1) <= i + om < _divisor_summatory(n):
+                    bad("index-outside-the-block-of-its-hyperbola", label, f"pair({s}), omit_zero={omit} = {i}; hyperbola n = {n}: block "
+                        f"[{_divisor_summatory(n - 1)}, {_divisor_summatory(n)})", {"state": s})
+            if i < 0:
+                bad("negative-index", label, f"pair({s}), omit_zero={omit} = {i}", {"state": s})
+            # project(pair(s)) == s; judged on the index the closed form gives as well (pair(project(z)) == z)
+            for z, side in ((i, "project-of-pair-differs"), (expected, "project-of-the-closed-form-index-differs")):
+                if z is None or z < 0 or (side.startswith("project-of-the") and z == i):
+                    continue
+                if name == "pepiskalmar" and z.bit_length() > 900:
+                    sh.count("zd-large:pepiskalmar-recursion-too-deep-skipped")
+                    continue
+                sh.count("evaluations")
+                try:
+                    t = P.project(z)
+                    if not all(is_int(v) for v in t):
+                        bad("state-not-of-integers", label, f"project({z}) = {t!r}")
+                    t = tuple(int(v) for v in t)
+                except Exception as e:  # noqa
+                    t = repr(e)
+                if t != s:
+                    bad(side, label, f"project({z}) = {t} for the state {s} (omit_zero={omit}, pair gives {i})", {"state": s, "omit": omit})
+            # neighbours of the index: pair(project(z)) == z
+            if name != "pepiskalmar" or i.bit_length() <= 900:
+                base = expected if expected is not None else i
+                for z in (base - 1, base + 1):
+                    if z < 0:
+                        continue
+                    sh.count("evaluations")
+                    try:
+                        t = tuple(int(v) for v in P.project(z))
+                        if name == "hyperbolic" and max(abs(v) for v in t) > 2 ** 34:
+                            continue
+                        z2 = int(P.pair(t))
+                    except Exception as e:  # noqa
+                        z2 = repr(e)
+                    if z2 != z:
+                        bad("pair-of-project-differs", label, f"pair(project({z})) = {z2}, omit_zero={omit} (index next to the one of {s})",
+                            {"z": z, "omit": omit})
+            # argument forms of pair (differential against the Python-integer answer); numpy forms only where they fit
+            usual = expected if expected is not None else i
+            forms = [("list", lambda: P.pair(list(s)), None), ("keyword", lambda: P.pair(x=s), None)]
+            for bits, dt in ((64, np.int64), (32, np.int32)):
+                if 8 * (usual + om + 1) < 2 ** (bits - 1):
+                    a = np.array(s, dtype=dt)
+                    forms.append((f"int{bits}-array", lambda a=a: P.pair(a), a))
+                    forms.append((f"tuple-of-numpy-int{bits}", lambda dt=dt: P.pair(tuple(dt(v) for v in s)), None))
+                else:
+                    sh.count(f"zd-large:numpy-int{bits}-form-would-overflow-outside-the-alphabet")
+            for form, call, arg in forms:
+                sh.count("evaluations")
+                before = None if arg is None else arg.copy()
+                try:
+                    g = call()
+                except Exception:  # noqa
+                    sh.count(f"form-rejected-by-the-library:zd-large:{name}:{form}")
+                    continue
+                if not is_int(g) or int(g) != usual:
+                    bad(f"form-answers-differently:{form}", label, f"pair({form} of {s}) = {g!r}, tuple of Python integers: {usual}", {"state": s})
+                if before is not None and not np.array_equal(before, arg):
+                    bad(f"form-modifies-its-argument:{form}", label, f"pair({form} of {s}) changed its argument to {arg.tolist()}")
+            if usual + om >= 0 and 8 * (usual + om + 1) < 2 ** 63 and (name != "pepiskalmar" or usual.bit_length() <= 900):
+                sh.count("evaluations")
+                try:
+                    t = tuple(int(v) for v in P.project(np.int64(usual)))
+                except Exception:  # noqa
+                    sh.count(f"form-rejected-by-the-library:zd-large:{name}:project:numpy-int64")
+                    t = s
+                if t != s:
+                    bad("form-answers-differently:project:numpy-int64", label, f"project(np.int64({usual})) = {t}, state {s}", {"state": s})
+        sh.cls(f"zd-large:{name}:d{dim}:omit-{omit}")
+    # objects used alternately (zero omitted / kept: the indices differ by one) and an object RE-PARAMETRISED through its
+    # public attributes (dimension, n_pairing re-assigned) must answer like a fresh object
+    PT, PF = (PairingToZd(_pairings()[name], dimension=dim, omit_zero=o) for o in (True, False))
+    other = "szudzik" if name != "szudzik" else "rosenbergstrong"
+    Q = PairingToZd(_pairings()[other], dimension=2 if dim != 2 else 3, omit_zero=True)
+    Q.pair((3, -2) if dim != 2 else (3, -2, 1))
+    Q.project(11)
+    Q.dimension = dim
+    Q.n_pairing = _pairings()[name]
+    for label, s in _large_states(name, dim, thorough)[:60:3]:
+        if name == "hyperbolic" and (max(abs(v) for v in s) > 2 ** 16 or sorted(abs(v) for v in s)[-2] > 8):
+            continue
+        sh.count("evaluations", 3)
+        try:
+            a, b, c = int(PT.pair(s)), int(PF.pair(s)), int(Q.pair(s))
+            tq = tuple(int(v) for v in Q.project(a))
+            tf = tuple(int(v) for v in PF.project(b))
+        except Exception as e:  # noqa
+            bad("alternating-or-reparametrised-object-raises", label, f"state {s}: {e!r}")
+            continue
+        if b != a + 1 or tf != s:
+            bad("zero-kept-and-zero-omitted-objects-disagree", label, f"state {s}: pair with zero omitted {a}, with zero kept {b}; project({b}) = {tf}")
+        if c != a or tq != s:
+            bad("reparametrised-object-answers-differently", label,
+                f"object built with {other} / another dimension, then dimension = {dim} and n_pairing = {name} assigned: pair({s}) = {c}, "
+                f"project({a}) = {tq}; a fresh object gives {a}")
+    sh.outcome((name, dim, nstates))
+    sh.nontriv()
+    if name == "rosenbergstrong" and dim == 3:
+        P = PairingToZd(_pairings()[name], dimension=3, omit_zero=True)
+        sh.sample({"sub": "zd-large", "state": [2 ** 21, 5, -2], "index": int(P.pair((2 ** 21, 5, -2)))})
